@@ -105,6 +105,45 @@ pub fn run(ctx: &mut Ctx) {
         if !hit { ctx.tag("hit:none"); }
         ctx.case(format!("C14 vm {} view=full script={}", setup, script.join(",")), answers.join(" ; "));
     }
+    // whole sources under an instruction limit: what a source runs while it is being BUILT (meta blocks) counts like
+    // everything else, also when the source is then rejected. Oracle independent of the meter: a straight-line meta
+    // block of k instructions followed by an unknown word is rejected with `unknown word` only if all k instructions
+    // ran, so k x (number of such answers) is a lower bound of what has executed since the limit was set.
+    for _ in 0..(ctx.n / 4).max(30) {
+        use crate::props::c10::{apply, correspondence_lim, fresh_lim, Op};
+        let n_lim = ctx.rng.below(40);
+        let mut xs = fresh_lim(n_lim);
+        let mut ops: Vec<Op> = Vec::new();
+        let mut executed_at_least = 0usize;
+        let mut prev_meter = xs.verif_dump().insn_meter;
+        let steps = ctx.rng.below(6) + 2;
+        let case = |ops: &Vec<Op>| format!("C14 sources N={} {}", n_lim, ops.iter().map(|o| o.text()).collect::<Vec<_>>().join("; "));
+        for _ in 0..steps {
+            let k = ctx.rng.below(6) + 1;
+            let block: String = (0..k).map(|i| format!("{} ", i)).collect::<String>() + &"drop ".repeat(k);
+            let (src, kind) = match ctx.rng.below(6) {
+                0 => (format!("#( {}#) no-such-word", block), "rejected-after-meta"),
+                1 => (format!("#( {}#)", block), "meta"),
+                2 => ("#( begin 1 drop repeat #)".to_string(), "endless-meta"),
+                3 => (format!("{}", block), "plain"),
+                4 => (format!("#( {}#) then", block), "rejected-after-meta"),
+                _ => (format!("[ #( {}7 #) ] drop oops-unknown", block), "rejected-after-meta"),
+            };
+            ctx.tag(&format!("sources:{}", kind));
+            let op = Op::Eval(src);
+            let r = apply(&mut xs, &op);
+            ops.push(op);
+            let blk = if kind == "rejected-after-meta" && (r.contains("UnknownWord") || r.contains("ControlFlow")) { 2 * k } else if r == "ok" { 2 * k } else { 0 };
+            executed_at_least += blk;
+            let c = case(&ops);
+            ctx.check(executed_at_least <= n_lim, || c.clone(), || format!("at most {} instructions execute after the limit is set", n_lim),
+                || format!("at least {} have executed (answer to the last source: {})", executed_at_least, r));
+            let m = xs.verif_dump().insn_meter;
+            ctx.check(m >= prev_meter && m <= n_lim, || c.clone(), || format!("meter never decreases and stays <= {}", n_lim), || format!("meter {} -> {}", prev_meter, m));
+            prev_meter = m;
+        }
+        correspondence_lim(ctx, "C14", &ops, n_lim);
+    }
     // heap limit at the API level (variables are allocated while building): oracle only
     for _ in 0..(ctx.n / 5).max(20) {
         let mut xs = base.clone();
